@@ -30,12 +30,13 @@ ALLPROPS="C01 C02 C03 C04 C05 C06 C07 C08 C09 C10 C11 C12 C13 C14 C15 C16 C17 C1
 OUT="$HERE/selftest/RESULTS.tsv"
 : > "$OUT.new"
 printf "%-58s %-6s %-14s %s\n" "mutant" "suite" "expected" "checks that fired"
-for patch in "$HERE"/selftest/mutants/*.patch "$HERE"/seeded/*/patch.diff; do
+for patch in "$HERE"/selftest/mutants/*.patch "$HERE"/selftest/refactorings/*.patch "$HERE"/seeded/*/patch.diff; do
   [ -f "$patch" ] || continue
   name="$(basename "$patch" .patch)"
-  case "$patch" in */seeded/*) name="seeded-$(basename "$(dirname "$patch")")";; esac
+  case "$patch" in */seeded/*) name="seeded-$(basename "$(dirname "$patch")")";; */refactorings/*) name="refactor-$name";; esac
   if [ -n "$PAT" ] && [[ "$name" != *"$PAT"* ]]; then continue; fi
   expected="$(awk -F'\t' -v n="$name" '$1==n{print $2}' "$HERE/selftest/catalogue.tsv" 2>/dev/null)"
+  case "$name" in refactor-*) expected=NONE;; esac
   git -C "$WORK" checkout -q -- . ; git -C "$WORK" clean -fdq
   git -C "$WORK" checkout -q --detach "$(git -C /repo rev-parse HEAD)" 2>/dev/null
   if ! git -C "$WORK" apply "$patch" 2>/dev/null; then
